@@ -215,3 +215,28 @@ func VerifC12_StoreCancelledMidFlight() {
 	verif.Assert("action_observed_its_stop_signal", sawDone)
 	verif.Assert("cancelled_store_is_reported_as_cancellation", err != nil && commonerrors.Any(err, commonerrors.ErrCancelled, commonerrors.ErrTimeout))
 }
+
+// VerifC12_ConcurrentRegistrations: two goroutines register concurrently, with
+// every memory access a scheduling point: no registration is lost and a later
+// Cancel invokes both.
+func VerifC12_ConcurrentRegistrations() {
+	verif.ExploreSchedules(2)
+	store := NewCancelFunctionsStore()
+	calledA, calledB := 0, 0
+	done := make(chan bool, 2)
+	verif.ExploreMemory(true)
+	go func() {
+		store.RegisterCancelFunction(func() { calledA++ })
+		done <- true
+	}()
+	go func() {
+		store.RegisterCancelFunction(func() { calledB++ })
+		done <- true
+	}()
+	<-done
+	<-done
+	verif.ExploreMemory(false)
+	verif.Assert("no_registration_is_lost", store.Len() == 2)
+	store.Cancel()
+	verif.Assert("cancel_invokes_every_registered_function", calledA == 1 && calledB == 1)
+}
